@@ -4,6 +4,7 @@ import (
 	"go/ast"
 	"go/token"
 	"go/types"
+	"reflect"
 	"sort"
 	"strconv"
 	"strings"
@@ -56,6 +57,7 @@ func runC20(p *eng.Prog, r *eng.Report, tier string) {
 	c20DecoderKeepsEveryValue(c, "C20.11")
 	c20ValuesOfTheFieldItself(c, "C20.12", f)
 	c20EveryFieldReported(c, "C20.13")
+	xmlLangTagsNamespaced(c, "C20.14")
 	hname := "p1"
 	// ---- C20.4b the encoder's output buffer never overlaps the digest ----------
 	nenc := 0
@@ -1013,4 +1015,58 @@ func c20EveryFieldReported(c *cx, id string) {
 		return true
 	})
 	c.r.Floor(id, "loops over Data.fields in ForFields", n, 1)
+}
+
+// xmlLangTagsNamespaced (C20.14 / C13.27): the language of an identity, a
+// stanza or an error text is the xml:lang attribute. encoding/xml matches a
+// struct tag without a namespace against an attribute of that local name in
+// ANY namespace (the last one wins): every struct field of the library that
+// is decoded from an attribute called lang names the XML namespace in its
+// tag. A peer's <identity xml:lang='el' lang='greek'/> is otherwise hashed
+// with the language "greek".
+func xmlLangTagsNamespaced(c *cx, id string) {
+	n := 0
+	seen := map[string]bool{}
+	for _, f := range c.allFns() {
+		if f.Pkg == nil || seen[f.Pkg.PkgPath] {
+			continue
+		}
+		seen[f.Pkg.PkgPath] = true
+		if !strings.HasPrefix(f.Pkg.PkgPath, eng.ModPath) || strings.Contains(f.Pkg.PkgPath, "/internal/integration") || strings.Contains(f.Pkg.PkgPath, "/examples") {
+			continue
+		}
+		for _, file := range f.Pkg.Syntax {
+			ast.Inspect(file, func(x ast.Node) bool {
+				st, ok := x.(*ast.StructType)
+				if !ok || st.Fields == nil {
+					return true
+				}
+				for _, fld := range st.Fields.List {
+					if fld.Tag == nil {
+						continue
+					}
+					raw, uerr := strconv.Unquote(fld.Tag.Value)
+					if uerr != nil {
+						continue
+					}
+					tag := reflect.StructTag(raw).Get("xml")
+					parts := strings.Split(tag, ",")
+					isAttr := false
+					for _, o := range parts[1:] {
+						if o == "attr" {
+							isAttr = true
+						}
+					}
+					name := parts[0]
+					if !isAttr || (name != "lang" && !strings.HasSuffix(name, " lang")) {
+						continue
+					}
+					n++
+					c.r.CheckNamed(id, f.Pkg.Types.Name(), "lang attribute tag `"+tag+"`", "T: a field decoded from the lang attribute names the XML namespace (http://www.w3.org/XML/1998/namespace lang,attr)", fld.Pos(), name == "http://www.w3.org/XML/1998/namespace lang", "the tag matches an attribute called lang in any namespace: a foreign lang attribute is taken for xml:lang")
+				}
+				return true
+			})
+		}
+	}
+	c.r.Floor(id, "struct fields decoded from a lang attribute", n, 5)
 }
